@@ -40,6 +40,8 @@ struct St {
     stop: bool,
     switches: usize,
     callback_switches: usize,
+    /// decisions at which the stalled thread was actually withheld from the policy
+    stall_hits: usize,
 }
 
 enum Policy {
@@ -82,6 +84,7 @@ pub struct Summary {
     pub deviated: bool,
     pub switches: usize,
     pub callback_switches: usize,
+    pub stall_hits: usize,
 }
 
 impl Baton {
@@ -100,6 +103,7 @@ impl Baton {
             stop: false,
             switches: 0,
             callback_switches: 0,
+            stall_hits: 0,
         };
         // the very first decision (who starts) is part of the trace
         if n > 0 {
@@ -214,6 +218,7 @@ impl Baton {
             deviated: st.deviated,
             switches: st.switches,
             callback_switches: st.callback_switches,
+            stall_hits: st.stall_hits,
         }
     }
 }
@@ -233,8 +238,9 @@ fn choose(st: &mut St, me: usize) -> usize {
     // runnable = alive, minus a stalled thread (unless it is the only one)
     let mut runnable: Vec<usize> = (0..st.alive.len()).filter(|&i| st.alive[i]).collect();
     if let Some(s) = &st.stall {
-        if st.step >= s.from_step && st.step < s.from_step + s.len && runnable.len() > 1 {
+        if st.step >= s.from_step && st.step < s.from_step + s.len && runnable.len() > 1 && runnable.contains(&s.thread) && !matches!(st.policy, Policy::Explicit(_)) {
             runnable.retain(|&i| i != s.thread);
+            st.stall_hits += 1;
         }
     }
     debug_assert!(!runnable.is_empty());
